@@ -12,6 +12,9 @@ CHECKS = {
  "C03": ("exploration", "bounded exhaustive mutation-sequence enumeration on the real KeyedStateStore over a real dkv.DB (background work held or quiescent as an enumerated action) vs a shadow map",
          "every sequence of put/delete mutations up to depth 4-5 over prefix-related subject keys, namespaces and entry keys incl. empty ones, tiny DKV thresholds; GetState of every subject key after every mutation equals the shadow map[subject][namespace][entry]; no foreign, duplicated or resurrected entries",
          "store tier only so far (the operator path with batching is added with the scheduler-driven operator harness); namespaces < 256 bytes", "DESIGN.md §5 C03"),
+ "C04": ("exploration", "delay-bounded exhaustive schedule exploration of a real SourceRunner (reader loop, ReorderFetcher, per-operator batching, timers on virtual time) under a cooperative scheduler; stream oracle with the harness's own hash",
+         "scenarios of 1-2 splits / 3-5 records x read size x operator count x batch size x time-out x barrier position, every schedule within 1 delay (all configurations) and 2 delays (focused configurations); thorough one more each: every keyed event exactly once at the owning operator, same-split same-key order, consistent cuts by barriers and watermarks, completeness after 450 ms of virtual time",
+         "scheduling points at synchronisation operations; runs judged after a virtual-time horizon because end of input does not end the run in this code base", "DESIGN.md §5 C04"),
  "C05": ("exploration", "exhaustive enumeration of configurations (key-group counts x operator counts) and of a stated key set on the real KeySpace / OperatorPartition / KeyedStateStore / TimerStore vs an independent MurmurHash3-32 reference",
          "every g<=256 x every n<=g+3 (thorough: g<=2048 x 16 characteristic n and 160 large g up to 65535): ranges contiguous, disjoint, covering, balanced; RangeIndex and partition ownership agree with the range table; KeyGroup = reference murmur3 mod g for every key of length <=2 and 29k longer keys; persisted prefixes of state and timer entries equal it",
          "'every key' and 'every g with every n' are bounded as stated; reference anchored by published test vectors", "DESIGN.md §5 C05"),
@@ -33,9 +36,18 @@ CHECKS = {
  "C10": ("exploration", "bounded exhaustive operation-sequence enumeration with state-key pruning on the real TimerRegistry/TimerStore over a real dkv.DB vs a set of pending timers",
          "every sequence up to depth 5-7 over SetTimer / AdvanceWatermark / checkpoint+restore with 1-2 upstreams and per-key-group cache capacities of 0,1,2,3,unlimited timers; each advance must deliver exactly the pending timers at or below the minimum upstream watermark, once, in order; final drain",
          "three subject keys in two key groups, four timestamps; non-decreasing upstream watermarks; large memtable (the database is C07/C08's subject)", "DESIGN.md §5 C10"),
- "C12": ("model_checking", "explicit-state search (choice-sequence DFS with canonical state-key pruning) over the real snapshots.Store, every transition compared with a reference model",
-         "all states of the real Store reachable within 14-24 events over CreateCheckpoint / CreateSavepoint / operator and source-runner acknowledgements (right, late, early ids; foreign senders; duplicates) / restart, for assemblies (1,1), (2,1), (2,2); in-memory state, CurrentCheckpoint, decoded snapshot files, savepoint files and retained notifications equal the model after every event",
+ "C11": ("exploration", "delay-bounded exhaustive schedule exploration of a real SourceRunner (watermark values in the operator streams) + exhaustive merge-order enumeration against a real Operator (minimum over upstreams)",
+         "source runner: as C04, the k-th watermark equal in all streams, non-decreasing, exactly one nanosecond below the largest forwarded timestamp (bounds when a stream has not received it yet); operator: 1-3 upstreams, every merge order of 4-5 messages (events, timer-setting events, watermarks): the watermark the handler is told and the timers that fire follow the minimum over upstreams, unreported = epoch",
+         "non-decreasing watermarks per runner in the operator part", "DESIGN.md §5 C11"),
+ "C12": ("model_checking", "explicit-state search (choice-sequence DFS with canonical state-key pruning) over the real snapshots.Store, every transition compared with a reference model; plus delay-bounded exhaustive schedule exploration of concurrent acknowledgements",
+         "concurrent acknowledgements / duplicate / racing CreateCheckpoint on separate threads against the real Store (every schedule within 3-4 delays); all states of the real Store reachable within 14-24 events over CreateCheckpoint / CreateSavepoint / operator and source-runner acknowledgements (right, late, early ids; foreign senders; duplicates) / restart, for assemblies (1,1), (2,1), (2,2); in-memory state, CurrentCheckpoint, decoded snapshot files, savepoint files and retained notifications equal the model after every event",
          "publication goroutines awaited after every event (their interleavings and crash points are C13's subject); in-memory storage location", "DESIGN.md §5 C12"),
+ "C13": ("fault_enumeration", "crash-point enumeration (file set after every storage operation, restart on a copy) over id ranges + delay-bounded exhaustive schedule exploration of overlapping publication goroutines of the real Store",
+         "2-4 consecutive checkpoints from 95 start ids (0..70, around 2^6, 2^12, 2^16, 2^32), in memory and on the real LocalDirectory: after every storage operation a new Store loads the highest completely written checkpoint; three checkpoints created back to back with their publication goroutines interleaved in every way within 4-5 delays: Remove never targets the newest published checkpoint, retained notifications and CurrentCheckpoint never go back",
+         "storage operations are atomic; scheduling points at synchronisation operations", "DESIGN.md §5 C13"),
+ "C16": ("exploration", "delay-bounded exhaustive schedule exploration of a real SourceRunner (reported split positions vs the barrier cut) + exhaustive enumeration of splitter configurations and kinesis shard histories against the real splitters",
+         "source runner: as C04 with a barrier racing the reads: reported positions put every record emitted before the barrier below and every later record at or above them; embedded/httpapi splitters for every split count <=5 x runner count <=4; real kinesis SourceSplitter against the repository's kinesis fake (in-process transport, discovery ticker on virtual time): every history up to depth 6-7 over split / merge / discovery tick / reader finishes shard / checkpoint+restore: a shard handed out once per incarnation, never before its parents finished, with its checkpointed cursor, restore neither panics nor forgets",
+         "records without keyed events are invisible to the cut oracle; kinesis shard expiry not modelled", "DESIGN.md §5 C16"),
  "C17": ("exploration", "bounded exhaustive input/history enumeration on the real SST and WAL code vs reference lists",
          "every run of 0..50 entries from a 56-key universe (binary, empty, prefix-related keys; tombstone masks exhaustive up to 8 entries), whole and split at every target size, every lookup key / prefix, descriptor JSON round trip; every WAL history over put/delete/cut/truncate/rotate+save up to depth 6-7 with every legal start marker",
          "bounded sizes and alphabet; MemoryFilesystem stands for all file systems", "DESIGN.md §5 C17"),
